@@ -638,7 +638,7 @@ func report(prop string, cfg PropConfig, w *World, results []*unitResult, all []
 					knownLines = append(knownLines, fmt.Sprintf("KNOWN-FINDING: property=%s %s %s", prop, o.Name, kf.What))
 				}
 			} else {
-				violations = append(violations, reportViolation(prop, o, oblUnit[o], replayDir, w))
+				violations, infra = addViolation(violations, infra, reportViolation(prop, o, oblUnit[o], replayDir, w), o, oblUnit[o])
 			}
 		case o.Status == "discharged":
 			discharged++
@@ -650,7 +650,7 @@ func report(prop string, cfg PropConfig, w *World, results []*unitResult, all []
 			discharged++
 			failing = append(failing, map[string]interface{}{"obligation": o.Name, "status": o.Status, "note": "panic here is caught by a deferred recover: input dropped", "where": o.Where})
 		default:
-			violations = append(violations, reportViolation(prop, o, oblUnit[o], replayDir, w))
+			violations, infra = addViolation(violations, infra, reportViolation(prop, o, oblUnit[o], replayDir, w), o, oblUnit[o])
 		}
 		if len(samples) < 12 && o.Result.Solver != "" && o.Result.Solver != "trivial" {
 			samples = append(samples, map[string]interface{}{"obligation": o.Name, "clause": o.Src, "status": o.Status, "backend": o.Result.Solver, "seconds": round3(o.Result.Seconds), "where": o.Where})
@@ -784,6 +784,16 @@ func reportViolation(prop string, o *Obligation, u *Unit, replayDir string, w *W
 			suffix = ""
 		}
 	}
+	if suffix != "" {
+		// no model, or the model did not reproduce: bounded search for a failing input by running
+		// the executable form of the clause on enumerated small inputs (real code, real clause)
+		if rp, ok := tryReplay(prop, o, u, nil, replayDir, w); ok {
+			fmt.Fprintf(&b, "failing input found by bounded enumeration of small inputs (see %s)\n", rp)
+			path = rp
+			suffix = ""
+		}
+	}
+	o.Reproduced = suffix == ""
 	fmt.Fprintf(&b, "solver output:\n%s\n", truncate(o.Result.Output, 4000))
 	if suffix != "" {
 		os.WriteFile(path, []byte(b.String()), 0o644)
